@@ -128,9 +128,23 @@ func c16Ops() []c16op {
 	return ops
 }
 
+type c16done struct {
+	op   c16op
+	id   uint16
+	st   entities.ContentType
+	seq  int
+}
+
 type c16sys struct {
 	ops  []c16op
 	set  entities.Set
+	// scratch is the caller's slice, reused between the copying add calls (AddRecord /
+	// AddRecordWithExtraElements copy the elements; only AddRecordV2 adopts the slice)
+	scratch []entities.InfoElementWithValue
+	sinceReset []c16done // operations since the last reset (for the fresh-set differential)
+	handedOut  []entities.Record // GetRecords() result obtained before the last reset
+	handedBytes [][]byte
+	failAdds    []int
 	// model
 	st       entities.ContentType
 	prepared bool
@@ -159,12 +173,21 @@ func (s *c16sys) Apply(opi int) (v *xplore.Violation) {
 			return xplore.V("prepare-error", "%s: %v", op.name, err)
 		}
 		s.st, s.id, s.prepared = op.st, op.id, true
+		s.sinceReset = append(s.sinceReset, c16done{op: op, id: op.id, st: op.st})
 	case "reset":
+		// what the application was handed before the reset must not change under its feet
+		s.handedOut = append([]entities.Record{}, s.set.GetRecords()...)
+		s.handedBytes = nil
+		for _, r := range s.recs {
+			s.handedBytes = append(s.handedBytes, append([]byte{}, r...))
+		}
 		s.set.ResetSet()
 		s.prepared, s.recs, s.hdrLenOK = false, nil, false
+		s.sinceReset = nil
 	case "update":
 		s.set.UpdateLenInHeader()
 		s.hdrLenOK = true
+		s.sinceReset = append(s.sinceReset, c16done{op: op})
 	case "failadd":
 		ies := c16ies(c16lists[op.list])
 		var els []entities.InfoElementWithValue
@@ -192,6 +215,7 @@ func (s *c16sys) Apply(opi int) (v *xplore.Violation) {
 			s.recs = append(s.recs, refcodec.EncodeRecord(refcodec.Template{Fields: specs}, raws))
 			s.hdrLenOK = false
 		}
+		s.failAdds = append(s.failAdds, 1)
 	case "add":
 		ies := c16ies(c16lists[op.list])
 		var els []entities.InfoElementWithValue
@@ -213,16 +237,23 @@ func (s *c16sys) Apply(opi int) (v *xplore.Violation) {
 			}
 		}
 		var err error
+		arg := els
+		if op.variant != 3 {
+			// the copying paths get the caller's reusable scratch slice
+			s.scratch = append(s.scratch[:0], els...)
+			arg = s.scratch
+		}
 		switch op.variant {
 		case 0:
-			err = s.set.AddRecord(els, s.id)
+			err = s.set.AddRecord(arg, s.id)
 		case 1:
-			err = s.set.AddRecordWithExtraElements(els, 0, s.id)
+			err = s.set.AddRecordWithExtraElements(arg, 0, s.id)
 		case 2:
-			err = s.set.AddRecordWithExtraElements(els, 2, s.id)
+			err = s.set.AddRecordWithExtraElements(arg, 2, s.id)
 		case 3:
-			err = s.set.AddRecordV2(els, s.id)
+			err = s.set.AddRecordV2(arg, s.id)
 		}
+		s.sinceReset = append(s.sinceReset, c16done{op: op, id: s.id, st: s.st, seq: s.seq})
 		if err != nil {
 			return xplore.V("add-error", "%s: %v", op.name, err)
 		}
@@ -233,7 +264,86 @@ func (s *c16sys) Apply(opi int) (v *xplore.Violation) {
 		}
 		s.hdrLenOK = false
 	}
-	return s.invariants(op.name)
+	return s.lengths(op.name)
+}
+
+// lengths: the bookkeeping invariants that can be checked without forcing any record buffer.
+func (s *c16sys) lengths(after string) *xplore.Violation {
+	want := 4
+	for _, r := range s.recs {
+		want += len(r)
+	}
+	recs := s.set.GetRecords()
+	if len(recs) != len(s.recs) || int(s.set.GetNumberOfRecords()) != len(s.recs) {
+		return xplore.V("record-count", "after %s: the set holds %d records (GetNumberOfRecords %d), expected %d", after, len(recs), s.set.GetNumberOfRecords(), len(s.recs))
+	}
+	sum := 4
+	for i, r := range recs {
+		if r.GetRecordLength() != len(s.recs[i]) {
+			return xplore.V("record-length", "after %s: record %d reports length %d, its encoding has %d bytes", after, i, r.GetRecordLength(), len(s.recs[i]))
+		}
+		sum += r.GetRecordLength()
+	}
+	if s.set.GetSetLength() != sum || sum != want {
+		return xplore.V("set-length", "after %s: GetSetLength()=%d, 4+sum of record lengths=%d, bytes to serialise=%d", after, s.set.GetSetLength(), sum, want)
+	}
+	return nil
+}
+
+// Finish runs at the end of every history: byte-level comparison with the reference encoding, with
+// a fresh set that replays the operations since the last reset, and of records handed out before it.
+func (s *c16sys) Finish() *xplore.Violation {
+	if v := s.invariants("the history"); v != nil {
+		return v
+	}
+	// differential: a new set given the operations since the last reset
+	fresh := entities.NewSet(false)
+	var scratch []entities.InfoElementWithValue
+	for _, d := range s.sinceReset {
+		switch d.op.kind {
+		case "prepare":
+			fresh.PrepareSet(d.st, d.id)
+		case "update":
+			fresh.UpdateLenInHeader()
+		case "add":
+			var els []entities.InfoElementWithValue
+			for _, ie := range c16ies(c16lists[d.op.list]) {
+				if d.st == entities.Template {
+					e, _ := entities.DecodeAndCreateInfoElementWithValue(ie, nil)
+					els = append(els, e)
+				} else {
+					e, _ := c16value(ie, d.seq)
+					els = append(els, e)
+				}
+			}
+			arg := els
+			if d.op.variant != 3 {
+				scratch = append(scratch[:0], els...)
+				arg = scratch
+			}
+			fresh.AddRecordV2(append([]entities.InfoElementWithValue{}, arg...), d.id)
+		}
+	}
+	if len(s.sinceReset) > 0 || len(s.recs) == 0 {
+		if !bytes.Equal(fresh.GetHeaderBuffer(), s.set.GetHeaderBuffer()) && len(s.failAdds) == 0 {
+			return xplore.V("differs-from-fresh-set", "header buffer %x, a new set given the operations since the last reset has %x", s.set.GetHeaderBuffer(), fresh.GetHeaderBuffer())
+		}
+		preparedSince := false
+		for _, d := range s.sinceReset {
+			if d.op.kind == "prepare" {
+				preparedSince = true
+			}
+		}
+		if fresh.GetSetType() != s.set.GetSetType() && preparedSince {
+			return xplore.V("differs-from-fresh-set", "set type %d, a new set given the same operations has %d", s.set.GetSetType(), fresh.GetSetType())
+		}
+	}
+	for i, r := range s.handedOut {
+		if !bytes.Equal(r.GetBuffer(), s.handedBytes[i]) {
+			return xplore.V("reset-aliases-old-records", "record %d obtained from GetRecords() before ResetSet now serialises to %x, it was %x (the reset set reuses storage it had handed out)", i, short(r.GetBuffer()), short(s.handedBytes[i]))
+		}
+	}
+	return nil
 }
 
 func (s *c16sys) invariants(after string) *xplore.Violation {
